@@ -42,7 +42,9 @@ def numel(shape):
 
 
 def softplus(x):
-    return np.logaddexp(0.0, x)
+    # the function torch computes: linear above its threshold of 20
+    x = np.asarray(x, dtype=np.float64)
+    return np.where(x > 20.0, x, np.logaddexp(0.0, np.minimum(x, 20.0)))
 
 
 def sigmoid(x):
@@ -73,8 +75,10 @@ def _cube_d(x, xa):
 
 
 def _softplus_d(x, xa):
-    s = sigmoid(x)
-    return s, s + s * (1.0 - s) * xa
+    s = np.where(x > 20.0, 1.0, sigmoid(x))
+    # near the threshold an argument error can switch branches: the derivative jumps by 1-sigmoid(20) ~ 2e-9
+    near = np.abs(x - 20.0) <= 1e-6 * (1.0 + np.abs(x)) + 1e-9 * xa
+    return s, s + s * (1.0 - s) * xa + np.where(near, 1e-2, 0.0)
 
 
 def _sigmoid_d(x, xa):
